@@ -12,7 +12,7 @@ RULE = ("for (n, r, s): every encoder is inverted by its decoder, raw halves are
         "small n; boundary (r,s) for 17 curve orders and random orders of every bit length mod 8. "
         "non-trivial key = (format, n bits mod 8 / size, r class, s class) or (decoder, defect class)")
 ASSUMPTIONS = ["reference DER codec vf/ref/der_ref.py", "int.to_bytes / int.from_bytes"]
-REQUIRED = {"quick": ["rt.string", "rt.strings", "rt.der", "helpers", "reject.string.length", "reject.strings.length",
+REQUIRED = {"quick": ["rt.giant_order", "reentrant_calls", "rt.string", "rt.strings", "rt.der", "helpers", "reject.string.length", "reject.strings.length",
                       "reject.strings.count", "reject.der", "accept.der"]}
 EXHAUSTIVE = {"quick": ["all (r,s) in [0,n-1]^2 for every n in [2,120]"],
               "thorough": ["all (r,s) in [0,n-1]^2 for every n in [2,300]"]}
